@@ -477,22 +477,23 @@ func newWorld(e *env, r *vh.Rng, n, t, secretKind int, tag string) *world {
 			rep.Fail("pvss.DecShare/not-inverse-of-encryption", fmt.Sprintf("share %d: x*V != S", i), w.replay(nil))
 		}
 	}
-	// DecShareBatch (not modelled): trustee 0 is handed its own share and the share of trustee 1
+	// DecShareBatch: trustee 0 is handed the share of trustee 1, its own share, and its own share under a wrong challenge
 	{
-		Kb, Eb, Db, err := pvss.DecShareBatch(e.suite, w.H, []kyber.Point{w.X[0], w.X[0]}, []kyber.Point{w.sH[1], w.sH[0]}, w.x[0],
-			[]kyber.Scalar{w.gc, w.gc}, []*pvss.PubVerShare{w.enc[1], w.enc[0]})
-		for range Db {
-			if e.clone != nil {
-				e.suite.Scalar().Pick(e.clone)
-			}
-		}
+		wrongGc := e.suite.Scalar().Add(w.gc, e.suite.Scalar().One())
+		Kb, Eb, Db, err, _ := w.decShareBatch([]kyber.Point{w.X[0], w.X[0], w.X[0]}, []kyber.Point{w.sH[1], w.sH[0], w.sH[0]}, w.x[0],
+			[]kyber.Scalar{w.gc, w.gc, wrongGc}, []*pvss.PubVerShare{w.enc[1], w.enc[0], w.enc[0]}, "own share between two invalid ones")
 		okb := err == nil && len(Kb) == 1 && len(Eb) == 1 && len(Db) == 1 && Eb[0] == w.enc[0] &&
 			pvss.VerifyDecShare(e.suite, e.base(), w.X[0], w.enc[0], Db[0]) == nil && Db[0].S.V.Equal(w.dec[0].S.V)
 		if w.X[0].Equal(w.X[1]) {
 			okb = true
 		}
 		if !okb {
-			rep.Fail("pvss.DecShareBatch/not-filter-of-valid-shares", fmt.Sprintf("kept %d of 2 (expected exactly the own share), err=%v", len(Db), err), w.replay(nil))
+			rep.Fail("pvss.DecShareBatch/not-filter-of-valid-shares", fmt.Sprintf("kept %d of 3 (expected exactly the own share), err=%v", len(Db), err), w.replay(nil))
+		}
+		if e.emit {
+			// unequal lengths; too few expected challenges (index out of range)
+			w.decShareBatch([]kyber.Point{w.X[0]}, []kyber.Point{w.sH[0], w.sH[0]}, w.x[0], []kyber.Scalar{w.gc, w.gc}, []*pvss.PubVerShare{w.enc[0], w.enc[0]}, "unequal lengths")
+			w.decShareBatch([]kyber.Point{w.X[0], w.X[0]}, []kyber.Point{w.sH[1], w.sH[0]}, w.x[0], []kyber.Scalar{w.gc}, []*pvss.PubVerShare{w.enc[1], w.enc[0]}, "one challenge for two shares")
 		}
 	}
 	D, err := pvss.VerifyDecShareBatch(e.suite, e.base(), w.X, w.enc, w.dec)
@@ -579,6 +580,51 @@ func (w *world) encBatch(X []kyber.Point, pub *share.PubPoly, enc []*pvss.PubVer
 			len(E) != len(enc), fmt.Sprintf("enc_batch:kept%d/%d", len(E), len(enc)), w.replay(map[string]interface{}{"what": "VerifyEncShareBatch " + what}))
 	}
 	return K, E, code
+}
+
+// DecShareBatch with replay of the scalars picked for the successful positions
+func (w *world) decShareBatch(X, sH []kyber.Point, x kyber.Scalar, gcs []kyber.Scalar, enc []*pvss.PubVerShare, what string) ([]kyber.Point, []*pvss.PubVerShare, []*pvss.PubVerShare, error, bool) {
+	e := w.e
+	var K []kyber.Point
+	var E, D []*pvss.PubVerShare
+	var err error
+	before := len(e.st.Log)
+	panicked, _ := vh.Try(func() { K, E, D, err = pvss.DecShareBatch(e.suite, w.H, X, sH, x, gcs, enc) })
+	if e.dlog == nil {
+		return K, E, D, err, panicked
+	}
+	// replay exactly the bytes the implementation consumed (also on a panic half way)
+	var vs []kyber.Scalar
+	for len(e.clone.Log) < len(e.st.Log) {
+		vs = append(vs, e.suite.Scalar().Pick(e.clone))
+	}
+	_ = before
+	if e.emit {
+		tb := e.newTable()
+		inv := new(big.Int).ModInverse(sv(x), e.dlog.Q)
+		k := 0
+		for i := range enc {
+			if i < len(X) && i < len(sH) && i < len(gcs) && k < len(vs) &&
+				pvss.VerifyEncShare(e.suite, w.H, X[i], sH[i], gcs[i], enc[i]) == nil {
+				V := e.mul(inv, dl(enc[i].S.V))
+				tb.add([]*big.Int{sv(x), e.mul(sv(x), V), sv(vs[k]), e.mul(sv(vs[k]), V)})
+				k++
+			}
+		}
+		out := fmt.Sprintf("(inr (%s, %s, %s))", zPs(K), wshares(E), wshares(D))
+		switch {
+		case panicked:
+			out = "(inl (-1))"
+		case err != nil:
+			out = fmt.Sprintf("(inl %d)", recCode(err))
+		}
+		if panicked {
+			vs = nil // the model does not describe how far a panicking call got
+		}
+		e.addCase(fmt.Sprintf("(CDecShareBatch %d %s %s %s %s %s %s %s %s %s %s)", *e.id, vh.CoqZ(e.dlog.Q), tb, zP(w.H), zPs(X), zPs(sH), zS(x), zSs(gcs), wshares(enc), zSs(vs), out),
+			true, "dec_share_batch", w.replay(map[string]interface{}{"what": "DecShareBatch " + what}))
+	}
+	return K, E, D, err, panicked
 }
 
 func (w *world) verDec(X kyber.Point, enc, dec *pvss.PubVerShare, what string) int {
